@@ -79,10 +79,32 @@ func genInt(rng *rand.Rand) int {
 
 func genStrand(rng *rand.Rand) seq.Strand { return seq.Strand(rng.Intn(3) - 1) }
 
+// genLongField returns a text field of 4000..9000 bytes: a line holding it is longer than a 4096-byte read buffer.
+func genLongField(rng *rand.Rand) string {
+	n := 4000 + rng.Intn(5001)
+	b := make([]byte, n)
+	for i := range b {
+		b[i] = byte(33 + rng.Intn(94))
+		if i > 0 && i < n-1 && rng.Intn(9) == 0 {
+			b[i] = ' '
+		}
+	}
+	if b[0] == '#' {
+		b[0] = 'x'
+	}
+	return string(b)
+}
+
 func genBed(rng *rand.Rand, n int) feat.Feature {
 	chrom := genField(rng, rng.Intn(4) == 0)
 	s, e := genInt(rng), genInt(rng)
 	name := genField(rng, rng.Intn(3) == 0)
+	switch rng.Intn(60) {
+	case 0:
+		name = genLongField(rng)
+	case 1:
+		chrom = genLongField(rng)
+	}
 	score := genInt(rng)
 	st := genStrand(rng)
 	switch n {
@@ -96,6 +118,9 @@ func genBed(rng *rand.Rand, n int) feat.Feature {
 		return &bed.Bed6{Chrom: chrom, ChromStart: s, ChromEnd: e, FeatName: name, FeatScore: score, FeatStrand: st}
 	}
 	nb := 1 + rng.Intn(5)
+	if rng.Intn(60) == 0 { // enough blocks for a line of several read buffers
+		nb = 400 + rng.Intn(800)
+	}
 	b := &bed.Bed12{Chrom: chrom, ChromStart: s, ChromEnd: e, FeatName: name, FeatScore: score, FeatStrand: st,
 		ThickStart: genInt(rng), ThickEnd: genInt(rng), BlockCount: nb}
 	switch rng.Intn(6) {
@@ -222,6 +247,12 @@ func genGFF(rng *rand.Rand) *gff.Feature {
 	}
 	if rng.Intn(3) == 0 {
 		f.Comments = genField(rng, true)
+	}
+	switch rng.Intn(80) {
+	case 0:
+		f.Comments = genLongField(rng)
+	case 1:
+		f.FeatAttributes = append(f.FeatAttributes, gff.Attribute{Tag: genTag(rng), Value: strings.ReplaceAll(genLongField(rng), ";", ",")})
 	}
 	return f
 }
